@@ -170,6 +170,17 @@ class Resolver:
                 m = eff.find_method(attr)
                 if m is not None:
                     return site("resolved", [m])
+            # module_alias.function(...)   (from . import emit  /  from .. import actions)
+            if isinstance(recv, ast.Name):
+                imp = func.module.imports.get(recv.id)
+                if imp and imp[0] is not None:
+                    cand = f"{imp[0]}.{imp[1]}" if imp[0] and imp[1] else (imp[1] or imp[0])
+                    tm = self.p.modules.get(cand)
+                    if tm is not None:
+                        if attr in tm.functions:
+                            return site("resolved", [tm.functions[attr]])
+                        if attr in tm.classes:
+                            return site("resolved", self._ctor(tm.classes[attr]))
             # ClassName.method(...)
             if isinstance(recv, ast.Name):
                 hit = self._lookup_name(recv.id, func)
